@@ -47,6 +47,9 @@ struct Case {
     remote: bool,
     /// "" | "create" | "parent"
     intent: String,
+    /// pass `--settings settings.json` with automatic thumbnails off (smallest possible new manifest)
+    #[serde(default)]
+    no_thumb: bool,
 }
 
 // ------------------------------------------------------------------------------------------------------
@@ -170,6 +173,11 @@ fn setup(c: &Case, replay: bool) -> Result<Setup, String> {
     std::fs::copy(format!("{repo}/sdk/tests/fixtures/libpng-test.png"), dir.join("thumb.png")).map_err(|x| e("thumb", x))?;
 
     let mut args: Vec<String> = vec![in_name.clone()];
+    if c.no_thumb {
+        std::fs::write(dir.join("settings.json"), br#"{"builder": {"thumbnail": {"enabled": false}}}"#).map_err(|x| e("settings", x))?;
+        args.push("--settings".into());
+        args.push("settings.json".into());
+    }
     let mut may_change: Vec<String> = vec![];
     let target_preexists;
     let decoy_body = b"PRE-EXISTING OUTPUT (decoy, not a valid asset)\n".to_vec();
@@ -522,6 +530,12 @@ fn judge_live(run: &Run, c: &Case, su: &Setup) -> CaseResult {
     // ---- 3. exit 0 from a signing command => output reads back Valid ----------------------------------------
     if ok && c.mode == "sign" {
         run.count("signed_exit0");
+        // non-vacuity of the "new store smaller than the old one" in-place cases
+        if let (Some(Entry::File { size: a, .. }), Some(Entry::File { size: b, .. })) = (before.get(&su.in_name), after.get(&su.in_name)) {
+            if a != b {
+                run.count(if b < a { "inplace_signed_input_shrank" } else { "inplace_signed_input_grew" });
+            }
+        }
         let out_path = if Path::new(&su.out_arg).is_absolute() { PathBuf::from(&su.out_arg) } else { su.dir.join(&su.out_arg) };
         let Ok(asset) = std::fs::read(&out_path) else {
             return Err(Fail::new("C32:signed-output-missing", format!("`{cmdline}` exited 0 but {} cannot be read", su.out_arg)));
@@ -663,6 +677,7 @@ fn gen_case(r: &mut SplitMix64, thorough: bool) -> Case {
             sidecar_pre,
             remote: r.chance(1, 4),
             intent: ["", "", "", "create", "parent"][r.usize(5)].into(),
+            no_thumb: r.chance(1, 8),
         }
     } else {
         let with_manifest = ["cli/tests/fixtures/C.jpg", "cli/tests/fixtures/verify.jpeg", "cli/tests/fixtures/C_with_CAWG_data.jpg"];
@@ -682,8 +697,58 @@ fn gen_case(r: &mut SplitMix64, thorough: bool) -> Case {
             sidecar_pre: "none".into(),
             remote: false,
             intent: String::new(),
+            no_thumb: false,
         }
     }
+}
+
+/// Deterministic core matrix (runs in every tier before the random invocations): the overwrite decision per
+/// (output, sidecar, force, input) combination, plus forced in-place signing of an input whose manifest store
+/// is larger than the new one.
+fn core_matrix() -> Vec<Case> {
+    let mut v = vec![];
+    let unsigned = "cli/tests/fixtures/earth_apollo17.jpg";
+    let signed = "cli/tests/fixtures/C.jpg";
+    for input in [unsigned, signed] {
+        for out in ["absent", "existing-file", "same-as-input", "same-dot-slash", "same-abs", "symlink-to-input"] {
+            for (sidecar, pre) in [(false, "none"), (true, "none"), (true, "file")] {
+                for force in ["", "-f"] {
+                    v.push(Case {
+                        input: input.into(),
+                        mode: "sign".into(),
+                        manifest: "m".into(),
+                        out: out.into(),
+                        force: force.into(),
+                        sidecar,
+                        sidecar_pre: pre.into(),
+                        remote: false,
+                        intent: String::new(),
+                        no_thumb: false,
+                    });
+                }
+            }
+        }
+    }
+    // smallest new manifest (--create, inline definition, thumbnails off) over an input that carries a large store
+    for out in ["same-as-input", "same-dot-slash", "same-abs", "symlink-to-input", "existing-copy-of-input", "absent"] {
+        for (sidecar, pre) in [(false, "none"), (true, "none")] {
+            for force in ["-f", ""] {
+                v.push(Case {
+                    input: signed.into(),
+                    mode: "sign".into(),
+                    manifest: "c".into(),
+                    out: out.into(),
+                    force: force.into(),
+                    sidecar,
+                    sidecar_pre: pre.into(),
+                    remote: false,
+                    intent: "create".into(),
+                    no_thumb: true,
+                });
+            }
+        }
+    }
+    v
 }
 
 fn build_tool(run: &Run) -> bool {
@@ -741,7 +806,13 @@ fn main() {
     }
     let thorough = !run.quick();
     let mut rng = SplitMix64::new(run.seed ^ 0xC32);
-    let n = run.scale(200, 4000);
+    let core = core_matrix();
+    run.extra("core_matrix_cases", json!(core.len()));
+    run.drive_enum_par("core_matrix", core, run.scale(8, 16), |c| {
+        run.count("core_matrix");
+        judge(&run, c)
+    });
+    let n = run.scale(160, 4000);
     let cases: Vec<Case> = (0..n).map(|_| gen_case(&mut rng, thorough)).collect();
     run.drive_enum_par("cli", cases, run.scale(8, 16), |c| judge(&run, c));
     let _ = std::fs::remove_dir_all(WORK);
